@@ -180,8 +180,8 @@ namespace stdex
 #else
         constexpr const T& operator[](size_type idx) const { return the_data[idx]; }
         constexpr T& operator[](size_type idx) { return the_data[idx]; }
-        constexpr void push_back(const T& v) { the_data[current_size++] = v; }
-        constexpr void emplace_back(T&& v) { the_data[current_size++] = std::move(v); }
+        constexpr void push_back(const T& v) { check_capacity(); the_data[current_size++] = v; }
+        constexpr void emplace_back(T&& v) { check_capacity(); the_data[current_size++] = std::move(v); }
         constexpr const T& front() const { return the_data[0]; }
         constexpr T& front() { return the_data[0]; }
         constexpr T& back() { return the_data[current_size - 1]; }
@@ -216,6 +216,12 @@ namespace stdex
         }
 
     private:
+        constexpr void check_capacity() const
+        {
+            if (current_size >= N)
+                throw std::runtime_error("Pushing out of range");
+        }
+
         T the_data[N];
         size_type current_size;
     };
